@@ -468,6 +468,13 @@ async fn scenario(store: Store, plan: &[Dev], dir: std::path::PathBuf) -> Result
         }
     }
     c.settle().await?;
+    // replication to a node that was unreachable sleeps in openraft's back-off (500 ms); the clock is
+    // paused, so let it expire explicitly or an isolated follower never catches up after the heal
+    // (found through seeded change C37: the stale follower was simply never contacted again)
+    for _ in 0..3 {
+        tokio::time::advance(Duration::from_millis(600)).await;
+        c.settle().await?;
+    }
     obs.points.push(c.observe());
     for round in 0..4 {
         if let Some(l) = c.leader() {
@@ -648,7 +655,7 @@ pub fn run(args: &Args) -> ! {
     }
     let deadline = mc::Deadline::after(Duration::from_secs(args.tier.pick(45, 1100)));
     // quick: every single deviation, plus every ordered pair (snapshot+purge, then crash or election)
-    // on the persistent store; thorough: every plan with up to 2 deviations.
+    // on the persistent store and every ordered pair (isolate, then snapshot+purge); thorough: every plan with up to 2 deviations.
     let bound = |_store: Store| -> usize { 2 };
     let quick = args.tier == Tier::Quick;
     let counter = std::sync::atomic::AtomicU64::new(0);
@@ -687,10 +694,11 @@ pub fn run(args: &Args) -> ! {
                 if plan.len() == depth && depth < bound(store) {
                     let mut succ = successors(store, plan, &obs);
                     if quick && depth >= 1 {
-                        if store == Store::Mem || !matches!(plan[0], Dev::SnapshotPurge { .. }) {
-                            succ.clear();
-                        }
-                        succ.retain(|p| matches!(p[1], Dev::CrashRestart { .. } | Dev::CrashDown { .. } | Dev::Elect { .. }));
+                        let first_snap = store == Store::Rocks && matches!(plan[0], Dev::SnapshotPurge { .. });
+                        // (isolate, then snapshot+purge): the isolated node has to catch up through
+                        // InstallSnapshot after the heal (added after seeded change C37), both stores
+                        let first_iso = matches!(plan[0], Dev::Isolate { .. });
+                        succ.retain(|p| (first_snap && matches!(p[1], Dev::CrashRestart { .. } | Dev::CrashDown { .. } | Dev::Elect { .. })) || (first_iso && matches!(p[1], Dev::SnapshotPurge { .. })));
                     }
                     next_level.lock().unwrap().extend(succ);
                 }
@@ -717,7 +725,7 @@ pub fn run(args: &Args) -> ! {
     if rep.has_violation_sig("C37:harness:mem:execution_aborted") || rep.has_violation_sig("C37:harness:rocks:execution_aborted") {
         mc::machinery_error("some executions could not be completed (see replays/C37)");
     }
-    rep.rule = "Deviation-bounded exploration of a 3-node in-process cluster (real openraft, real MemStore / RocksStore and state machine): the default environment delivers every RPC; plans with 0 and 1 deviations plus (quick) all ordered pairs (snapshot+purge, then crash/restart, crash-until-heal or election) on the persistent store or (thorough) all plans with 2 deviations, from {drop request #s, drop reply #s, isolate node at phase, crash+restart / crash-until-heal (RocksStore), trigger election, snapshot+purge}, successors generated from the RPC trace of each execution (positions strictly after the previous deviation). Non-trivial = every deviation of the plan was actually reached. states = distinct (write results, final per-node state) outcomes; transitions = RPCs carried by the harness network.".into();
+    rep.rule = "Deviation-bounded exploration of a 3-node in-process cluster (real openraft, real MemStore / RocksStore and state machine): the default environment delivers every RPC; plans with 0 and 1 deviations plus (quick) all ordered pairs (snapshot+purge, then crash/restart, crash-until-heal or election) on the persistent store and all ordered pairs (isolate, then snapshot+purge) on both stores, or (thorough) all plans with 2 deviations, from {drop request #s, drop reply #s, isolate node at phase, crash+restart / crash-until-heal (RocksStore), trigger election, snapshot+purge}, successors generated from the RPC trace of each execution (positions strictly after the previous deviation). Non-trivial = every deviation of the plan was actually reached. states = distinct (write results, final per-node state) outcomes; transitions = RPCs carried by the harness network.".into();
     rep.assume("openraft timers are disabled and the tokio clock is paused; leader leases are expired by advancing the virtual clock before every harness-triggered election");
     rep.assume("quiescence = 100 consecutive scheduler rounds without a new RPC or metrics change");
     rep.assume("the HTTP transport (raft/network.rs) is replaced by an in-process network, as the property's hook note foresees");
